@@ -103,7 +103,7 @@ impl FunctionMarkupPass {
         }
         // TODO: Handle functions with no return statements
         else {
-            Err(Box::new(CfgError::UnexpectedError))
+            Err(Box::new(CfgError::FunctionWithoutReturn(entry.node())))
         }
     }
 }
